@@ -19,6 +19,7 @@ import Mhd.Proofs.AuthCorrupt
 import Mhd.Proofs.AuthRef
 import Mhd.Proofs.AuthLay
 import Mhd.Proofs.AuthCache
+import Mhd.Proofs.AuthLenient
 
 namespace Mhd.C14
 open Mhd.Auth Mhd.Gen.Auth
@@ -538,7 +539,7 @@ example : Ref.value [110, 99, 61, 49, 44, 78, 67, 61, 34, 92, 50, 34] kNc = some
     (1) `nc=` empty unquoted value, (2) — (`realm=a"b`, DQUOTE inside an unquoted value: refused since fix F35, stated
     here as rejected), (3) `realm=a=b` '=' inside an unquoted value, (4) `foo` unknown element without "=", (5) `fo o="x` + `"y` quoted parts anywhere in an unknown
     element, (6) `realm="a` + 0x01 + `"` control character inside a quoted-string.
-    This is the soundness half `digest_accepts_only_grammar` in `_partial` form: what is missing is the exact
+    The exact accepted language is given by `digest_accepts_only_lenient_grammar` below.  (Earlier text: what was missing is the exact
     characterisation of the accepted language (a lenient grammar: token values = any bytes but NUL SP HT , ; possibly
     empty; unknown elements = any text without NUL ; and top-level comma, with balanced DQUOTE parts) and its proof. -/
 theorem digest_accepts_beyond_grammar_witness :
@@ -717,6 +718,40 @@ theorem next_request_fresh (hs' : List Hdr) :
 example : (basicQ false exHdrs RqAuth.init).1 = none ∧
     (basicQ true exHdrs (basicQ false exHdrs RqAuth.init).2).1 = some ([65], some [66]) ∧
     (basicQ true (exHdrs.drop 2) RqAuth.init).1 = none := by decide
+
+
+/-! ## Soundness half: the scanner accepts only the lenient grammar -/
+
+/-- For EVERY byte string `s`: if `parse_dauth_params` accepts `s`, then `s` is a sentence of the lenient grammar
+    `Mhd.Auth.Lenient` — OWS, then elements separated by "," OWS, each element either a known parameter
+    `name BWS "=" BWS ( value ) OWS` or an "other" element — and every slot holds exactly the (slice, escape flag)
+    of the last occurrence of that parameter in the derivation, so the unquoted values agree.  The grammar is the
+    RFC 7235 / 7616 grammar relaxed by exactly: unquoted values may be empty and contain any byte but NUL SP HT , ;
+    DQUOTE ('=' too); quoted-strings may contain any byte but NUL (a backslash quotes any byte but NUL); an element
+    whose name is not one of the twelve known names is any text without NUL, ';' and top-level ',' with DQUOTE-delimited
+    parts anywhere, no "=" needed (this rule alone is F36).  Together with `parse_agrees_reference` the accepted
+    language lies between the strict and this lenient grammar.  (The derivation is given as a tree whose rendering
+    is `s`, not by a second executable reader.) -/
+theorem digest_accepts_only_lenient_grammar (s : Bytes) (t : UInt8) (d : DAuth) (h : parseDigest s (some t) = .ok d) :
+    ∃ lead ls, Lenient.Derives lead ls s ∧
+      (∀ k, (d.slots k).map pr = Lenient.lview ls none k) ∧
+      (∀ k, (d.slots k).map paramUnq = (Lenient.lview ls none k).map fun x => if x.2 then unquote x.1 else x.1) := by
+  obtain ⟨lead, ls, hd, hv⟩ := Lenient.parseDigest_sound s t d h
+  refine ⟨lead, ls, hd, hv, fun k => ?_⟩
+  rw [← hv k]
+  cases d.slots k with
+  | none => rfl
+  | some p => simp [pr, paramUnq]
+
+/-- Non-vacuity: a derivation of ` nc= , fo o","y,Realm = "a` 0x01 `"` (empty value, an element without "=" that
+    contains a quoted comma, a control byte in a quoted-string) -/
+def exLen : List (Lenient.LElem × Bytes) :=
+  [(.known kNc [110, 99] [] [] (.tok []) [32], [32]), (.other [102, 111, 32, 111, 34, 44, 34, 121], []),
+   (.known kRealm [82, 101, 97, 108, 109] [32] [32] (.quoted [97, 1]) [], [])]
+example : (∀ x ∈ exLen, x.1.wf = true ∧ allWs x.2 = true) ∧
+    Lenient.lview exLen none kRealm = some ([97, 1], false) ∧ Lenient.lview exLen none kNc = some ([], false) ∧
+    (parseDigest ([32] ++ Lenient.renderL exLen) (some 0)).map (fun d => ((d.slots kRealm).map pr, (d.slots kNc).map pr)) =
+      .ok (some ([97, 1], false), some ([], false)) := by decide
 
 
 end Mhd.C14
